@@ -18,7 +18,9 @@ RULE = ('An original bundle (payload 0..4000 octets, extension blocks with and w
         'position, are enumerated.  Oracle = interval coverage model per bundle identity: no application delivery while '
         'an octet is missing; exactly one delivery, at the arrival that completes coverage, not flagged fragment, payload '
         '== original, extension blocks == those of the offset-0 fragment; nothing afterwards; the two interleaved bundles '
-        'never mix.  Non-trivial = >= 3 fragments arriving in an order different from offset order; distinct by SHA-1.')
+        'never mix.  (secured) a real source with a BIB or BCB policy over the payload and a route MTU emits fragments; a real '
+        'destination holding the key receives them in several orders: nothing early, exactly one delivery, payload == the '
+        'original plaintext (all primary / payload CRC types).  Non-trivial = >= 3 fragments arriving in an order different from offset order; distinct by SHA-1.')
 SHRINK_KEYS = ('arrival',)
 SHRINK_KINDS = ('list',)
 ASSUMPTIONS = [
@@ -89,6 +91,8 @@ def strategy(tier):
 
 
 def enumerate_cases(tier):
+    for case in secured_cases(tier):
+        yield case
     limit = 4 if tier == 'quick' else 5
     fragsets = [
         (10, [[0, 5], [5, 10]]), (10, [[0, 3], [3, 7], [7, 10]]), (12, [[0, 3], [3, 6], [6, 9], [9, 12]]),
@@ -153,7 +157,90 @@ def cut(original, rng):
     return {'primary': pri, 'blocks': blocks}
 
 
+def secured_cases(tier):
+    ''' A bundle that got a BIB or BCB over its payload at the source and was then fragmented on its way. '''
+    for policy, pcrc, ycrc, plen, nperm in itertools.product(('bib', 'bcb'), (0, 1, 2), (0, 1), (150, 500), range(3 if tier == 'quick' else 8)):
+        yield {'kind': 'secured', 'policy': policy, 'pcrc': pcrc, 'ycrc': ycrc, 'plen': plen, 'mtu_extra': 60, 'order_seed': nperm, 'seed': 3}
+
+
+def execute_secured(case):
+    ''' The first fragment carries the security block made over the whole payload; the reassembled bundle is the
+    original again, so its security block verifies and the bundle (payload == original) is delivered exactly once. '''
+    from vlib import bp_world as bw, ref9171 as r, bpconv, bpsec_util as bu, strat9174
+    from bp.util import BundleContainer
+    out = Outcome()
+    bw.reset()
+    policy = case['policy']
+    payload = strat9174.content(int(case['plen']), int(case['seed']))
+    bundle = {'primary': dict(version=7, flags=0, crc_type=case['pcrc'], dest=['dtn', '//dst/svc'], src=['dtn', '//srcnode/app'],
+                              rpt=['dtn', 'none'], ts=[789004000000, 1 + int(case['seed'])], lifetime=3600000, frag=None),
+              'blocks': [dict(type=193, num=2, flags=1, crc_type=0, data='0a0b'),
+                         dict(type=1, num=1, flags=0, crc_type=case['ycrc'], data=payload.hex())]}
+    src = bw.Node('dtn://srcnode/', tx_routes=[('.*', 'dtn://next/', None)], name='source')
+    dst = bw.Node(NODE, rx_routes=[('^dtn://dst/', 'deliver')], tx_routes=[('.*', 'dtn://next/', None)], accept_after_verify=True, name='dst')
+    if policy == 'bib':
+        for node in (src, dst):
+            bu.give_key(node, 'k-mac-1', 5, 'mac')
+        bu.add_policy(src, 'bib', 'k-mac-1', [1])
+    else:
+        for node in (src, dst):
+            bu.give_key(node, 'k-enc-1', 3, 'enc')
+        bu.add_policy(src, 'bcb', 'k-enc-1', [1], ivs=[b'\x21' * 12])
+    empty = dict(bundle, blocks=bundle['blocks'][:-1] + [dict(bundle['blocks'][-1], data='')])
+    src.config.tx_route_table[0].mtu = len(r.encode(empty)) + 110 + int(case.get('mtu_extra', 60))
+    err = src.send(BundleContainer(bpconv.to_repo(bundle)))
+    wires = list(src.sent())
+    decs = []
+    for wire in wires:
+        try:
+            decs.append(r.decode(wire))
+        except r.RefError as exc:
+            out.fail('source-not-wellformed', 'the source emitted a malformed bundle: %s' % exc)
+            return out
+    out.label('secured:' + policy, 'pcrc:%d' % case['pcrc'])
+    if err is not None or len(wires) < 2 or not all(d['primary']['frag'] is not None for d in decs):
+        out.label('secured-not-fragmented')
+        return out
+    sec_type = 11 if policy == 'bib' else 12
+    if not any(b['type'] == sec_type for b in decs[0]['blocks']):
+        out.fail('secured-first-fragment-without-security-block', 'the fragment at offset 0 carries no %s' % policy)
+        return out
+    order = list(range(len(wires)))
+    random.Random(int(case.get('order_seed', 0))).shuffle(order)
+    if int(case.get('order_seed', 0)) == 0:
+        order = list(range(len(wires)))
+    fin = []
+    orig = dst.agent._finish_bundle
+
+    def finish(ctr):
+        fin.append((sorted(ctr.actions), ctr.status_reason))
+        return orig(ctr)
+    dst.agent._finish_bundle = finish
+    for pos, idx in enumerate(order):
+        before = len(dst.records())
+        dst.receive(wires[idx])
+        now = len(dst.records())
+        if pos < len(order) - 1 and now != before:
+            out.fail('secured-delivered-early', 'a delivery happened with %d of %d fragments received' % (pos + 1, len(order)))
+    for esc in dst.escapes():
+        out.fail('escape:%s@%s' % (esc.exc_type, esc.frame), 'exception escaped a main-loop callback: %s: %s' % (esc.exc_type, esc.exc_msg[:120]))
+    recs = dst.records()
+    where = '%s over the payload, primary CRC type %d, %d fragments, arrival %s' % (policy.upper(), case['pcrc'], len(wires), order)
+    if len(recs) != 1:
+        out.fail('secured-not-delivered' if not recs else 'secured-delivered-twice',
+                 'all fragments of a bundle with a valid security block arrived, %d deliveries (%s; end of processing %s)'
+                 % (len(recs), where, fin[-1:] if fin else None))
+        return out
+    if recs[0]['payload'] != payload:
+        out.fail('secured-payload-differs', 'the delivered payload (%d octets) is not the original %d octets (%s)'
+                 % (len(recs[0]['payload']), len(payload), where))
+    out.nontrivial = order != sorted(order) and len(order) >= 3
+    return out
+
+
 def execute(case):
+    if case.get('kind') == 'secured':
+        return execute_secured(case)
     from vlib import bp_world as bw, ref9171 as r
     out = Outcome()
     bw.reset()
